@@ -215,8 +215,11 @@ class Run:
         for k in self.known:
             print("KNOWN-FINDING: property=%s %s" % (self.prop, k))
         seen = set()
+        # a failing input found by any part of the check decides the verdict: the lines that only name a broken
+        # correspondence are then kept in the evidence / replay files but not printed as "no-failing-input-found"
+        any_found = any(found for _, found in self.violations)
         for path, found in self.violations:
-            if path in seen:
+            if path in seen or (any_found and not found):
                 continue
             seen.add(path)
             print("VIOLATION property=%s replay=%s%s" % (self.prop, path, "" if found else " no-failing-input-found"))
